@@ -7,9 +7,18 @@
 (* sequence of at most FileCap slots [i, t, d, s] (index, term, payload     *)
 (* class, id of the Save that wrote it); the last file is the "current"     *)
 (* one (entryLog.current), the others are entryLog.files. FileCap stands    *)
-(* for maxNumEntries = 30000 (lib/raftlog/log.go).                          *)
+(* for maxNumEntries = 30000 (lib/raftlog/log.go). The payloads of a file   *)
+(* are laid out one after the other behind the slot table; a payload of     *)
+(* class Big weighs one unit and a file holds at most SizeCap units         *)
+(* (SizeCap stands for maxLogFileSize = 32 MiB: AddEntries rotates BEFORE   *)
+(* writing an entry when the file has maxNumEntries slots OR when           *)
+(* offset + 4 + len(payload) > maxLogFileSize). Rotation therefore happens  *)
+(* in the middle of a batch, appending or conflicting; a file rolled by     *)
+(* size has fewer than FileCap slots, and whatever the conflict handling    *)
+(* did not zero behind the roll point stays in the old file.                *)
 (*   Save         = RaftDiskStorage.Save -> entryLog.AddEntries (slotGe,    *)
-(*                  drop later files, zero the tail, append, rotate) +      *)
+(*                  drop later files, zero the tail, append, rotate by      *)
+(*                  slot count or by size) +                                *)
 (*                  metaFile.StoreHardState / StoreSnapshot                 *)
 (*   CreateSnapshot = RaftDiskStorage.CreateSnapshot                        *)
 (*   DeleteBefore = RaftDiskStorage.DeleteBefore -> entryLog.deleteBefore   *)
@@ -33,6 +42,9 @@ CONSTANTS FileCap,    \* slots per file (stands for 30000)
           MaxBatch,   \* entries per Save
           MaxSaves,   \* bound on Save actions
           MaxReopen,  \* bound on Reopen actions
+          SizeCap,    \* payload units per file (stands for the 32 MiB limit of a file)
+          MaxBig,     \* bound on the Big payloads saved in one behaviour (0 = rotation by slot count only); a Huge one counts 3
+          BigClasses, \* the heavy payload classes in use: a subset of {Big, Huge}
           Depth,      \* number of actions per behaviour
           Dev         \* deviations; {} = the design
 
@@ -40,10 +52,13 @@ VARIABLES st,    \* [files, keep, snap, hard, ref, clob, vis]
           open,  \* store is open
           ns,    \* number of saves so far (ids of saves)
           nr,    \* number of reopens so far
+          nb,    \* Big payloads saved so far (a Huge one counts 3)
           hist
 
-vars == <<st, open, ns, nr, hist>>
-view == <<st, open, ns, nr>>
+vars == <<st, open, ns, nr, nb, hist>>
+view == <<st, open, ns, nr, nb>>
+
+ASSUME SizeCap \in Nat \ {0} /\ MaxBig \in Nat /\ FileCap \in Nat \ {0} /\ BigClasses \subseteq {3, 4} /\ BigClasses # {}
 
 C == -1
 U == -2
@@ -88,6 +103,20 @@ RECURSIVE Flat(_)
 Flat(fs) == IF fs = <<>> THEN <<>> ELSE Head(fs) \o Flat(Tail(fs))
 
 NF(s)  == Len(s.files)
+
+\* payload weight: the classes of CONSTANT Classes are small (a file's 30000 small payloads do not add up to
+\* one unit); class Big weighs one unit; class Huge is a payload that does not even fit into an empty file
+\* (more than the 31 MiB payload area). Used(file) = where the next payload goes (the "offset" of
+\* AddEntries, which is recomputed from the last kept slot after a truncation and after a reopen).
+Big  == 3
+Huge == 4
+Weight(d) == IF d = Big THEN 1 ELSE IF d = Huge THEN SizeCap + 1 ELSE 0
+Cost(d)   == IF d = Huge THEN 3 ELSE 1
+RECURSIVE Used(_)
+Used(file) == IF file = <<>> THEN 0 ELSE Weight(Head(file).d) + Used(Tail(file))
+\* position k of a batch carries a Big payload iff bit k of the mask bm is set
+Bit(bm, k) == (bm \div (2 ^ (k - 1))) % 2 = 1
+NBig(bm, n) == Cardinality({k \in 1..n : Bit(bm, k)})
 Cur(s) == s.files[NF(s)]
 Slots(s) == Flat(s.files)
 
@@ -98,15 +127,18 @@ SlotIn(file, x) ==
        IN IF ks = {} THEN Len(file) + 1
           ELSE IF "slot_search_off_by_one" \in Dev /\ Min(ks) < Len(file) THEN Min(ks) + 1 ELSE Min(ks)
 
+\* logFile.firstIndex (0 for a file without entries)
+FirstOf(file) == IF file = <<>> THEN 0 ELSE file[1].i
+
 \* entryLog.slotGe: [f, k]; k = 0 means "not in the log (compacted)"
 Loc(s, x) ==
   LET nf == NF(s)
       kc == SlotIn(Cur(s), x)
   IN IF kc >= 1 THEN [f |-> nf, k |-> kc]
      ELSE IF nf = 1 THEN [f |-> nf, k |-> 0]
-     ELSE LET cands == {j \in 1..(nf - 1) : s.files[j][1].i >= x}
+     ELSE LET cands == {j \in 1..(nf - 1) : FirstOf(s.files[j]) >= x}
               j0 == IF cands = {} THEN nf ELSE Min(cands)
-          IN IF j0 <= nf - 1 /\ s.files[j0][1].i = x THEN [f |-> j0, k |-> 1]
+          IN IF j0 <= nf - 1 /\ FirstOf(s.files[j0]) = x THEN [f |-> j0, k |-> 1]
              ELSE LET j1 == IF j0 > 1 THEN j0 - 1 ELSE j0
                   IN [f |-> j1, k |-> SlotIn(s.files[j1], x)]
 
@@ -147,20 +179,38 @@ EntriesI(s, lo, hi) ==
   ELSE IF hi > LastRawI(s) + 1 THEN EU
   ELSE IF Slots(s) = <<>> THEN EU
   ELSE LET l == Loc(s, lo)
+           \* an empty slot of a file that is not the current one (file rolled by size) means "go on with the
+           \* next file", not "end of the log"
+           later == IF "scan_stops_at_short_file" \in Dev /\ l.k >= 1 /\ l.f < NF(s) /\ Len(s.files[l.f]) < FileCap
+                      THEN <<>> ELSE Flat(SubSeq(s.files, l.f + 1, NF(s)))
            from == IF l.k = 0 THEN Slots(s)
-                   ELSE SubSeq(s.files[l.f], l.k, Len(s.files[l.f])) \o Flat(SubSeq(s.files, l.f + 1, NF(s)))
+                   ELSE SubSeq(s.files[l.f], l.k, Len(s.files[l.f])) \o later
            got == TakeBelow(from, hi)
        IN [k \in 1..Len(got) |-> Seen(s, got[k])]
 
 -----------------------------------------------------------------------------
 \* entryLog.AddEntries
-RECURSIVE AppendAll(_, _)
-AppendAll(fs, batch) ==
-  IF batch = <<>> THEN fs
-  ELSE LET n == Len(fs)
-       IN IF Len(fs[n]) >= FileCap                                  \* rotate
-            THEN AppendAll(Append(fs, <<Head(batch)>>), Tail(batch))
-            ELSE AppendAll([fs EXCEPT ![n] = Append(@, Head(batch))], Tail(batch))
+\* the append loop: before every entry "if l.nextEntryIdx >= maxNumEntries || offset+4+len(re.Data) >
+\* maxLogFileSize then rotate". stale = the old slots that physically follow the write position in the
+\* current file and were NOT zeroed by the conflict handling (<<>> in the design): writing a slot
+\* overwrites the stale slot at that position; a rotation leaves the rest of them behind in the old file.
+\* An EMPTY file is never rolled: the entry goes into it however large it is (a Huge payload makes the
+\* file longer than the limit, and whatever comes next rolls it). Deviation: the size test alone decides, an
+\* empty file is moved to the list of rolled files.
+Rolls(file, e) == \/ Len(file) >= FileCap
+                  \/ /\ Used(file) + Weight(e.d) > SizeCap
+                     /\ (file # <<>> \/ "oversize_rolls_empty_file" \in Dev)
+RECURSIVE AppendAll(_, _, _)
+AppendAll(fs, batch, stale) ==
+  LET n == Len(fs)
+  IN IF batch = <<>> THEN [fs EXCEPT ![n] = @ \o stale]
+     ELSE LET e == Head(batch)
+          IN IF Rolls(fs[n], e)                                     \* rotate (by slot count or by size)
+               THEN LET left  == [fs EXCEPT ![n] = @ \o stale]
+                        first == IF "size_roll_drops_entry" \in Dev /\ Len(fs[n]) < FileCap THEN <<>> ELSE <<e>>
+                    IN AppendAll(Append(left, first), Tail(batch), <<>>)
+               ELSE AppendAll([fs EXCEPT ![n] = Append(@, e)], Tail(batch),
+                              IF stale = <<>> THEN <<>> ELSE Tail(stale))
 
 Truncated(s, l) ==   \* files after "remove the existing entry and all the entries after it"
   IF l.k = 0 \/ l.k > Len(s.files[l.f]) THEN s.files
@@ -169,6 +219,18 @@ Truncated(s, l) ==   \* files after "remove the existing entry and all the entri
        IN IF "trunc_keeps_later_files" \in Dev /\ l.f < NF(s)
             THEN SubSeq(s.files, l.f + 1, NF(s)) \o head    \* forgotten files stay on disk; the cut file becomes current
             ELSE head
+
+\* the old slots from the conflict slot on that stay on disk although they are superseded: none in the
+\* design (current file: slots [conflict slot, nextEntryIdx) are zeroed; earlier file: [conflict slot,
+\* maxNumEntries)). Deviations: only the part of the old tail that the new batch of n entries "does not
+\* cover" is zeroed - wrong as soon as the batch rotates before it ends.
+Stale(s, l, n) ==
+  IF l.k = 0 \/ l.k > Len(s.files[l.f]) THEN <<>>
+  ELSE LET file == s.files[l.f]
+           upto == IF l.k + n - 1 < Len(file) THEN l.k + n - 1 ELSE Len(file)
+       IN IF \/ l.f = NF(s) /\ "conflict_zero_only_uncovered_tail" \in Dev
+             \/ l.f < NF(s) /\ "trunc_zero_only_uncovered_tail" \in Dev
+            THEN SubSeq(file, l.k, upto) ELSE <<>>
 
 \* shadow of the real code's zero-fill after a truncation INTO AN EARLIER FILE (entrylog.go:163): the
 \* slots from the conflict slot to the end of the 1 MiB slot area are zeroed with FileWrapper.WriteSlice,
@@ -190,7 +252,9 @@ Obs(s) == [first |-> RFirst(s), last |-> RLast(s),
            terms |-> ObsTerms(s), iterms |-> ImplTerms(s),
            ents  |-> [k \in 1..Len(s.ref.ents) |-> REnt(s, s.ref.off + k)],
            snap  |-> s.snap, hard |-> s.hard,
-           files |-> [j \in 1..NF(s) |-> [fi |-> IF s.files[j] = <<>> THEN 0 ELSE s.files[j][1].i, n |-> Len(s.files[j])]],
+           files |-> [j \in 1..NF(s) |-> [fi |-> IF s.files[j] = <<>> THEN 0 ELSE s.files[j][1].i, n |-> Len(s.files[j]),
+                                           u |-> Used(s.files[j])]],
+           cap   |-> [slots |-> FileCap, units |-> SizeCap, big |-> MaxBig],
            clob  |-> SetToSeq(s.clob), vis |-> SetToSeq(s.vis)]
 
 Log(a, args, res) == hist' = Append(hist, [a |-> a, args |-> args, res |-> res, exp |-> Obs(st')])
@@ -201,19 +265,21 @@ NoHard == [t |-> 0, v |-> 0, c |-> 0]
 
 Init == /\ st = [files |-> << <<>> >>, keep |-> 0, snap |-> NoSnap, hard |-> NoHard,
                  ref |-> [off |-> 0, offT |-> 0, ents |-> <<>>], clob |-> {}, vis |-> {}]
-        /\ open = TRUE /\ ns = 0 /\ nr = 0 /\ hist = <<>>
+        /\ open = TRUE /\ ns = 0 /\ nr = 0 /\ nb = 0 /\ hist = <<>>
 
 \* term of the entry before s0 (a leader never appends a smaller term)
 TermFloor(s, s0) == LET t == RTerm(s, s0 - 1) IN IF t < 1 THEN 1 ELSE t
 
-\* Save(h, entries s0..s0+n-1 of term t and class d, snapshot at si): n = 0 = no entries, h = 0 = no hard
-\* state, si = 0 = no snapshot. Entries continue the log (s0 = last+1), overlap or conflict (s0 <= last).
-Save(h, s0, n, t, d, si) ==
+\* Save(h, entries s0..s0+n-1 of term t and class d - class bc (Big / Huge) at the positions of mask bm -, snapshot at si):
+\* n = 0 = no entries, h = 0 = no hard state, si = 0 = no snapshot. Entries continue the log (s0 = last+1),
+\* overlap or conflict (s0 <= last).
+Save(h, s0, n, t, d, bm, bc, si) ==
   LET id    == ns + 1
-      batch == [k \in 1..n |-> [i |-> s0 + k - 1, t |-> t, d |-> d, s |-> id]]
+      cls(k) == IF Bit(bm, k) THEN bc ELSE d
+      batch == [k \in 1..n |-> [i |-> s0 + k - 1, t |-> t, d |-> cls(k), s |-> id]]
       l     == Loc(st, s0)
-      fs1   == IF n = 0 THEN st.files ELSE AppendAll(Truncated(st, l), batch)
-      ref1  == IF n = 0 THEN st.ref ELSE RAppend(st.ref, s0, [k \in 1..n |-> [t |-> t, d |-> d, s |-> id]])
+      fs1   == IF n = 0 THEN st.files ELSE AppendAll(Truncated(st, l), batch, Stale(st, l, n))
+      ref1  == IF n = 0 THEN st.ref ELSE RAppend(st.ref, s0, [k \in 1..n |-> [t |-> t, d |-> cls(k), s |-> id]])
       last1 == ref1.off + Len(ref1.ents)
       cl1   == IF n = 0 THEN st.clob
                ELSE ({x \in st.clob : x < s0} \cup NewClob(st, l)) \cap FirstSlotIdx(fs1)
@@ -221,13 +287,15 @@ Save(h, s0, n, t, d, si) ==
       hard1 == IF h = 0 THEN st.hard ELSE [t |-> IF n > 0 THEN t ELSE TermFloor(st, last1 + 1), v |-> id, c |-> last1]
   IN /\ open /\ ns < MaxSaves
      /\ n > 0 \/ h > 0 \/ si > 0
+     /\ bm < 2 ^ n /\ nb + NBig(bm, n) * Cost(bc) <= MaxBig
      /\ si = 0 \/ (si > st.snap.i /\ si > ref1.off /\ si <= last1)
      /\ st' = [st EXCEPT !.files = fs1, !.ref = ref1, !.clob = cl1,
                          !.vis = IF n = 0 THEN @ ELSE {x \in @ : x < s0} \cap cl1,
                          !.snap = snap1, !.hard = hard1]
      /\ ns' = ns + 1
+     /\ nb' = nb + NBig(bm, n) * Cost(bc)
      /\ UNCHANGED <<open, nr>>
-     /\ Log("Save", [h |-> h, s0 |-> s0, n |-> n, t |-> t, d |-> d, si |-> si, id |-> id], "ok")
+     /\ Log("Save", [h |-> h, s0 |-> s0, n |-> n, t |-> t, d |-> d, bm |-> bm, bc |-> bc, si |-> si, id |-> id], "ok")
 
 SaveArgs ==
   {a \in [h : {0, 1}, s0 : 1..MaxIdx, n : 0..MaxBatch, t : 1..MaxTerm, d : Classes, si : 0..MaxIdx] :
@@ -237,13 +305,17 @@ SaveArgs ==
                    /\ a.t >= TermFloor(st, a.s0)}
 \* the Save arguments offered in one step; simulation configs override this with a random sample
 SaveChoices == SaveArgs
+\* the masks (positions of the Big payloads) offered for a batch of n entries; simulation configs override it
+Masks(n) == {bm \in 0..(2 ^ n - 1) : nb + NBig(bm, n) <= MaxBig}
+MaskChoices(n) == Masks(n)
+HeavyChoices(bm) == IF bm = 0 THEN {Big} ELSE BigClasses
 
 \* CreateSnapshot(i) for a stored index newer than the current snapshot
 CreateSnapshot(i) ==
   /\ open
   /\ i > st.snap.i /\ i >= RFirst(st) /\ i <= RLast(st)
   /\ st' = [st EXCEPT !.snap = [i |-> i, t |-> RTerm(st, i), d |-> 0]]
-  /\ UNCHANGED <<open, ns, nr>>
+  /\ UNCHANGED <<open, ns, nr, nb>>
   /\ Log("CreateSnapshot", [i |-> i], "ok")
 
 \* entryLog.deleteBefore(x): delete the files before the one that slotGe(x) names
@@ -271,13 +343,13 @@ DeleteBefore(x) ==
   /\ open
   /\ x >= 1 /\ x >= FirstI(st) - 1 /\ x <= LastRawI(st) + 1
   /\ st' = Pruned(st, x)
-  /\ UNCHANGED <<open, ns, nr>>
+  /\ UNCHANGED <<open, ns, nr, nb>>
   /\ Log("DeleteBefore", [i |-> x], IF Loc(st, x).k = 0 THEN "err" ELSE "ok")
 
 Close ==
   /\ open
   /\ open' = FALSE
-  /\ UNCHANGED <<st, ns, nr>>
+  /\ UNCHANGED <<st, ns, nr, nb>>
   /\ Log("Close", [x |-> 0], "ok")
 
 \* raftlog.Init: the slot tables are re-read, every length prefix now comes from disk (vis = clob), and the
@@ -288,7 +360,7 @@ Reopen ==
   /\ nr' = nr + 1
   /\ LET s1 == [st EXCEPT !.vis = st.clob]
      IN st' = IF st.snap.i > 0 THEN Pruned(s1, st.snap.i) ELSE s1
-  /\ UNCHANGED ns
+  /\ UNCHANGED <<ns, nb>>
   /\ Log("Reopen", [x |-> 0], "ok")
 
 \* indexes offered to CreateSnapshot / DeleteBefore in one step (simulation configs override them)
@@ -297,7 +369,8 @@ DelChoices  == 1..(MaxIdx + 1)
 
 Next ==
   /\ Len(hist) < Depth
-  /\ \/ \E a \in SaveChoices : Save(a.h, a.s0, a.n, a.t, a.d, a.si)
+  /\ \/ \E a \in SaveChoices : \E bm \in MaskChoices(a.n) : \E bc \in HeavyChoices(bm) :
+           Save(a.h, a.s0, a.n, a.t, a.d, bm, bc, a.si)
      \/ \E i \in SnapChoices : CreateSnapshot(i)
      \/ \E i \in DelChoices : DeleteBefore(i)
      \/ Close
@@ -309,12 +382,17 @@ Spec == Init /\ [][Next]_vars
 Idx == 0..(MaxIdx + 1)
 
 TypeOK == /\ open \in BOOLEAN
-          /\ \A j \in 1..NF(st) : Len(st.files[j]) <= FileCap
+          /\ \A j \in 1..NF(st) : /\ Len(st.files[j]) <= FileCap
+                                    /\ (Used(st.files[j]) <= SizeCap \/ (Len(st.files[j]) = 1 /\ st.files[j][1].d = Huge))
+          /\ nb \in 0..MaxBig
           /\ st.clob \subseteq 1..MaxIdx /\ st.vis \subseteq st.clob
 
-\* the stored slots are exactly a contiguous run of indexes; only the current file may be short or empty
+\* the stored slots are exactly a contiguous run of indexes; only the current file may be empty; a file
+\* that is not the current one was rolled because it was full: by slot count or by size (a Huge payload
+\* rolls whatever file has an entry)
 Contiguous == /\ \A k \in 1..(Len(Slots(st)) - 1) : Slots(st)[k + 1].i = Slots(st)[k].i + 1
-              /\ \A j \in 1..(NF(st) - 1) : Len(st.files[j]) = FileCap
+              /\ \A j \in 1..(NF(st) - 1) : \/ Len(st.files[j]) = FileCap
+                                            \/ (st.files[j] # <<>> /\ (Used(st.files[j]) >= SizeCap \/ Huge \in BigClasses))
 
 TermMonotone == /\ \A k \in 1..(Len(Slots(st)) - 1) : Slots(st)[k].t <= Slots(st)[k + 1].t
                 /\ Slots(st) # <<>> => st.keep <= Slots(st)[1].t
